@@ -186,6 +186,8 @@ struct TopoMachine : Machine {
     al.push_back({"diff", 0});   // 23
     al.push_back({"shm_adopt", 0});   // 24
     al.push_back({"battery", 0});     // 25
+    al.push_back({"xml_fault", 0}); al.push_back({"diffxml_fault", 0});   // 26, 27
+    if (prop == "C06") { al[26].w = 30; al[27].w = 3; al[0].w = 3; al[1].w = 2; al[2].w = 2; al[13].w = 2; al[18].w = 2; al[21].w = 2; al[6].w = 1; al[4].w = 2; al[9].w = 1; }
     if (prop == "C09") { al[25].w = 12; al[0].w = 8; al[2].w = 4; al[1].w = 2; al[10].w = 1; al[11].w = 1; al[24].w = 1; for (size_t i = 13; i < 24; i++) al[i].w = 0; al[13].w = 2; }
     else if (prop != "C01") al[25].w = 1;
     if (prop == "C19") { al[24].w = 7; al[12].w = 3; al[10].w = 1; al[3].w = 4; al[13].w = 2; al[14].w = 2; al[15].w = 1; al[18].w = 2; al[19].w = 2; al[20].w = 1; al[21].w = 2; al[22].w = 1; al[23].w = 1; }
@@ -208,7 +210,9 @@ struct TopoMachine : Machine {
       int rr = (int)ops.below(total); const char *k = nullptr; for (auto &x : al) { if (rr < x.w) { k = x.k; break; } rr -= x.w; }
       Op o(k); o.set("r", (int64_t)ops.below(4));
       std::string ks = k;
-      if (ks != "dup" && ks != "xml_restart" && ks != "destroy" && ks != "shm_adopt" && ks != "battery" && ops.chance(1, 2)) o.set("both", 1);
+      if (ks != "dup" && ks != "xml_restart" && ks != "destroy" && ks != "shm_adopt" && ks != "battery" && ks != "xml_fault" && ks != "diffxml_fault" && ops.chance(1, 2)) o.set("both", 1);
+      if (ks == "xml_fault") o.set("src", (int64_t)ops.below(4)).set("file", (int64_t)ops.below(100)).setu("fs", ops.next()).set("nf", ops.chance(2, 3) ? 0 : (int64_t)ops.below(3)).set("via", (int64_t)ops.below(2)).set("sz", ops.chance(1, 2) ? 0 : (int64_t)ops.below(4)).set("filt", (int64_t)ops.below(8)).set("again", (int64_t)ops.below(2));
+      if (ks == "diffxml_fault") o.setu("fs", ops.next()).set("nf", (int64_t)ops.below(2));
       if (ks == "battery") o.setu("qs", ops.next()).set("nq", (int64_t)ops.below(40));
       if (ks == "shm_adopt") o.set("off", (int64_t)ops.below(4)).set("fault", (int64_t)ops.below(9)).set("hb", (int64_t)ops.below(1000));
       if (ks.rfind("dist_", 0) == 0 || ks.rfind("mem_", 0) == 0 || ks.rfind("kind_", 0) == 0) o.set("obs", (int64_t)ops.below(2));
@@ -260,6 +264,7 @@ struct TopoMachine : Machine {
       r.curop = o.kind; r.curopidx = idx++; r.nops++; steps_reset();
       bool repl_op = o.kind == "dup" || o.kind == "xml_restart" || o.kind == "destroy" || o.kind == "shm_adopt";
       if (o.kind == "battery") { int bi = w.pick(o.u("r")); if (bi >= 0) { Replica &BR = w.r[bi]; if (!BR.last.ok) observe(w, bi, ""); battery(w, bi, o.u("qs"), (int)(o.u("nq") % 40) + 5); r.ev("battery r%d", bi); } continue; }
+      if (o.kind == "xml_fault" || o.kind == "diffxml_fault") { ops_xmlfault(w, o); continue; }
       if (repl_op) { if (!ops_repl(w, o) && !ops_shm(w, o)) r.ev("unknown op %s", o.kind.c_str()); continue; }
       int ri = w.pick(o.u("r")); if (ri < 0) break;
       exec_on(w, o, ri);
